@@ -259,8 +259,29 @@ func (fr *FnRun) copyBuiltin(st *State, site ssa.Instruction, args []Val) Val {
 // ---------------------------------------------------------------------------
 // maps with scalar keys (and string keys through an uninterpreted key sort)
 
+// mapKeySort: scalar keys keep their sort; string keys are abstracted to the uninterpreted sort
+// U_strkey through strkey(bytes, len) - equal key terms denote equal strings, different terms may
+// or may not (an over-approximation of map behaviour: a lookup may miss where the real one hits).
+func mapKeySort(t types.Type) (Sort, bool) {
+	if isString(t) {
+		return Sort("U_strkey"), true
+	}
+	return scalarSort(t)
+}
+
+func (fr *FnRun) mapKeyTerm(v Val) (*Term, bool) {
+	switch x := v.(type) {
+	case *Term:
+		return x, true
+	case *StrV:
+		fr.ex.Assumptions["string map keys are abstracted by an uninterpreted function of (bytes, length): lookups are over-approximated"] = true
+		return fr.uf("strkey", Sort("U_strkey"), x.Arr, x.Len), true
+	}
+	return nil, false
+}
+
 func (ex *Exec) emptyMap(mt *types.Map) *MapObjV {
-	ks, ok := scalarSort(mt.Key())
+	ks, ok := mapKeySort(mt.Key())
 	if !ok {
 		panic(abortf("map with non-scalar key %s", mt.Key()))
 	}
@@ -269,7 +290,7 @@ func (ex *Exec) emptyMap(mt *types.Map) *MapObjV {
 }
 
 func (ex *Exec) freshMapVals(mt *types.Map, name string) ArrData {
-	ks, _ := scalarSort(mt.Key())
+	ks, _ := mapKeySort(mt.Key())
 	if vs, ok := scalarSort(mt.Elem()); ok {
 		return Var(ex.fresh(name+".vals"), ArrSort(ks, vs))
 	}
@@ -289,7 +310,7 @@ func (ex *Exec) constArr(idx, elem Sort, v *Term) *Term {
 
 func (ex *Exec) freshMap(m *MapV, name string) *MapObjV {
 	mt := under(m.Obj.T).(*types.Map)
-	ks, ok := scalarSort(mt.Key())
+	ks, ok := mapKeySort(mt.Key())
 	if !ok {
 		panic(abortf("map with non-scalar key %s", mt.Key()))
 	}
@@ -334,7 +355,7 @@ func (fr *FnRun) lookup(st *State, x *ssa.Lookup) {
 		st.assume(in)
 		st.vals[x] = Select(v.Arr, idx)
 	case *MapV:
-		key, ok := ex.force(st, fr.value(st, x.Index)).(*Term)
+		key, ok := fr.mapKeyTerm(ex.force(st, fr.value(st, x.Index)))
 		if !ok {
 			panic(abortf("map lookup with non-scalar key"))
 		}
@@ -376,7 +397,7 @@ func (fr *FnRun) mapUpdate(st *State, x *ssa.MapUpdate) {
 	}
 	fr.oblige(st, "mapnil", fr.ordOf(x), Not(m.Nil), nil, "assignment to entry in non-nil map")
 	st.assume(Not(m.Nil))
-	key, ok := ex.force(st, fr.value(st, x.Key)).(*Term)
+	key, ok := fr.mapKeyTerm(ex.force(st, fr.value(st, x.Key)))
 	if !ok {
 		panic(abortf("map update with non-scalar key"))
 	}
@@ -394,7 +415,7 @@ func (fr *FnRun) mapDelete(st *State, m *MapV, key Val) {
 	if m.Nil.IsTrue() || m.Obj == nil {
 		return
 	}
-	kt, ok := key.(*Term)
+	kt, ok := fr.mapKeyTerm(fr.ex.force(st, key))
 	if !ok {
 		panic(abortf("delete with non-scalar key"))
 	}
@@ -405,10 +426,31 @@ func (fr *FnRun) mapDelete(st *State, m *MapV, key Val) {
 
 // range over maps / strings: not needed by the functions under contract so far
 func (fr *FnRun) rangeInit(st *State, x *ssa.Range) {
+	if fr.clearRanges[x] {
+		// map-clearing idiom (see mapClearIdiom): the whole loop is clear(m)
+		fr.ex.Assumptions["`for k := range m { delete(m, k) }` is executed as clear(m) (NaN keys, which delete cannot remove, are not modelled)"] = true
+		if m, ok := fr.ex.force(st, fr.value(st, x.X)).(*MapV); ok {
+			if !m.Nil.IsTrue() && m.Obj != nil {
+				mt := under(m.Obj.T).(*types.Map)
+				mo := fr.ex.emptyMap(mt)
+				if !m.Nil.IsFalse() {
+					// possibly nil: a nil map stays nil (its heap object is never read)
+				}
+				st.heap[m.Obj] = mo
+			}
+			st.vals[x] = &OpaqueV{T: x.Type(), Name: "range-cleared"}
+			return
+		}
+	}
 	panic(abortf("range over %s unsupported", x.X.Type()))
 }
 
 func (fr *FnRun) rangeNext(st *State, x *ssa.Next) {
+	if it, ok := st.vals[x.Iter].(*OpaqueV); ok && it.Name == "range-cleared" {
+		tt := x.Type().(*types.Tuple)
+		st.vals[x] = &TupleV{E: []Val{tFalse, fr.ex.zeroVal(tt.At(1).Type(), "rk"), fr.ex.zeroVal(tt.At(2).Type(), "rv")}}
+		return
+	}
 	panic(abortf("range/next unsupported"))
 }
 
